@@ -297,6 +297,11 @@ impl FileHandle for SimFile {
             return Poll::Pending;
         }
         let rem = self.bytes.len().saturating_sub(self.pos);
+        if rem == 0 {
+            // at or past the end of the file (seeking past the end is allowed)
+            self.core.shared.count("read.eof_or_empty");
+            return Poll::Ready(Ok(0));
+        }
         let mut n = buf.len().min(rem);
         if n > 0 {
             let cap = match self.core.plan.gran {
